@@ -156,6 +156,13 @@ int __wrap_pthread_join(pthread_t th, void **ret)
 	return __real_pthread_join(th, ret);
 }
 
+/* custom formatter: the payload alone (makes the payload's own truncation observable) */
+static int raw_fmt(const muggle_log_msg_t *msg, char *buf, size_t bufsize)
+{
+	return snprintf(buf, bufsize, "%s", msg->payload ? msg->payload : "");
+}
+static muggle_log_fmt_t raw_formatter = { 0, raw_fmt };
+
 /* ---------------- custom capture handler (a well-behaved user handler) ---------------- */
 typedef struct {
 	muggle_log_handler_t handler;
@@ -273,7 +280,7 @@ static void case_line(char *line)
 		int lv;
 		if (nh < MAXH && sscanf(line, "%*s %11s %d %31s", k, &lv, f) == 3) {
 			snprintf(hs[nh].kind, sizeof(hs[nh].kind), "%s", k);
-			hs[nh].level = lv; hs[nh].fmt = strcmp(f, "complicated") == 0;
+			hs[nh].level = lv; hs[nh].fmt = strcmp(f, "complicated") == 0 ? 1 : strcmp(f, "raw") == 0 ? 2 : 0;
 			nh++;
 		}
 	} else if (strcmp(op, "setlevel") == 0 && nops < MAXOPS) {
@@ -384,7 +391,8 @@ static int setup(void)
 		h_ok[i] = rc == 0;
 		if (rc != 0) { printf("hinit %d fail\n", i); continue; }
 		muggle_log_handler_set_level(&H[i].base, hs[i].level);
-		muggle_log_handler_set_fmt(&H[i].base, hs[i].fmt ? muggle_log_fmt_get_complicated() : muggle_log_fmt_get_simple());
+		muggle_log_handler_set_fmt(&H[i].base, hs[i].fmt == 2 ? &raw_formatter :
+			hs[i].fmt ? muggle_log_fmt_get_complicated() : muggle_log_fmt_get_simple());
 		int ar = logger->add_handler(logger, &H[i].base);
 		h_added[i] = ar == 0;
 		printf("add %d %s\n", i, ar == 0 ? "ok" : "refused");
@@ -455,10 +463,10 @@ static void oracle(int idx, int level, int srcline, const unsigned char *text, s
 	m.payload = payload;
 	printf("call %d %d text=", idx, level);
 	hexout(text, tlen);
-	for (int k = 0; k < 2; k++) {
-		muggle_log_fmt_t *f = k ? muggle_log_fmt_get_complicated() : muggle_log_fmt_get_simple();
+	for (int k = 0; k < 3; k++) {
+		muggle_log_fmt_t *f = k == 2 ? &raw_formatter : k ? muggle_log_fmt_get_complicated() : muggle_log_fmt_get_simple();
 		int n = f->fmt_func(&m, big, sizeof(big));
-		printf(" %s=", k ? "complicated" : "simple");
+		printf(" %s=", k == 2 ? "raw" : k ? "complicated" : "simple");
 		hexout((unsigned char *)big, n < 0 ? 0 : (size_t)n);
 	}
 	printf("\n");
